@@ -76,6 +76,8 @@ func runC02(p *chk.Prog, r *chk.Report) {
 	c02PoolCompat(p, r)
 	c02SortPools(p, r)
 	c02Requests(p, r)
+	c02SameIPs(p, r)
+	c02AllocateTo(p, r)
 	c02Annotation(p, r)
 	c02FamilySelect(p, r)
 	c02FirstPoolWins(p, r)
@@ -732,4 +734,111 @@ func sharingKeyOf(p *chk.Prog, f *chk.Fn) func(ast.Expr) bool {
 		}
 		return true
 	}
+}
+
+// c02SameIPs: "the addresses held are the addresses requested" is decided by controller.isEqualIPs; the request-change
+// rules rest on it being set equality. Necessary, in any spelling: it answers true only when the two lists have the
+// same length (a whole-list comparison, or an explicit length test), and both lists are brought into one order first.
+func c02SameIPs(p *chk.Prog, r *chk.Report) {
+	x := r.Rule("SAME-IPS", "B path", "controller.isEqualIPs(a, b) is true only behind a comparison of the whole lists (reflect.DeepEqual / slices.Equal / slices.EqualFunc of a and b) or behind len(a) == len(b), and both lists are sorted by the same key first: a requested set that merely contains (or is contained in) the held set is a changed request", 2)
+	f := need(x, p, "controller", "", "isEqualIPs")
+	if f == nil {
+		return
+	}
+	g := f.Graph()
+	a, b := isParamIdx(f, 0), isParamIdx(f, 1)
+	orCopy := func(q func(ast.Expr) bool) func(ast.Expr) bool {
+		return func(e ast.Expr) bool {
+			return q(e) || q(f.Resolve(e)) || definedBy(g, "slices.Clone(X)", chk.H("X", q))(e)
+		}
+	}
+	la, lb := orCopy(a), orCopy(b)
+	whole := chk.GSame(
+		g.GPat(true, "reflect.DeepEqual(A, B)", chk.H("A", la), chk.H("B", lb)), g.GPat(true, "reflect.DeepEqual(B, A)", chk.H("A", la), chk.H("B", lb)),
+		g.GPat(true, "slices.Equal(A, B)", chk.H("A", la), chk.H("B", lb)), g.GPat(true, "slices.EqualFunc(A, B, F)", chk.H("A", la), chk.H("B", lb)),
+		g.GPat(true, "slices.EqualFunc(B, A, F)", chk.H("A", la), chk.H("B", lb)))
+	sameLen := chk.GSame(g.GPat(true, "len(A) == len(B)", chk.H("A", la), chk.H("B", lb)), g.GPat(true, "len(B) == len(A)", chk.H("A", la), chk.H("B", lb)))
+	need1 := chk.GOr(whole, sameLen)
+	ok, n := true, 0
+	for _, rt := range g.Returns() {
+		rr := retResults(rt)
+		if len(rr) != 1 {
+			ok = false
+			continue
+		}
+		n++
+		switch {
+		case f.IsConstBool(rr[0], false):
+		case f.IsConstBool(rr[0], true):
+			if !g.Dominated(rt, need1) {
+				ok = false
+			}
+		default:
+			if !g.DominatedAssuming(rt, rr[0], true, need1) {
+				ok = false
+			}
+		}
+	}
+	x.Check("isEqualIPs:true-needs-equal-length", f.Pos(), ok && n > 0, "", "isEqualIPs can answer true for lists of different lengths (a subset or superset of the held addresses passes for the same request: an explicit request is then not honoured, or a stale address kept)")
+	// both lists sorted by the same key
+	nSorted := 0
+	for _, sc := range p.SortCalls() {
+		if sc.Fn != f || sc.Less == nil {
+			continue
+		}
+		if !(la(sc.Slice) || lb(sc.Slice)) {
+			continue
+		}
+		if rets := sc.ReturnsOfLess(); len(rets) == 1 {
+			if kc := sc.AsKeyCompare(rets[0]); kc != nil && f.MatchNew("X[I].String()", kc.Left) != nil {
+				if idx, _ := sc.IndexesOnlySorted(); idx {
+					nSorted++
+				}
+			}
+		}
+	}
+	x.Check("isEqualIPs:both-sorted", f.Pos(), nSorted == 2, "", "the two address lists are not both sorted by their text form before they are compared position by position")
+}
+
+// c02AllocateTo: the pool's allocateTo policy as the allocator sees it is complete: every namespace that one of the pool's
+// namespace selectors matches is in ServiceAllocation.Namespaces, and every service selector is in ServiceSelectors.
+func c02AllocateTo(p *chk.Prog, r *chk.Report) {
+	x := r.Rule("ALLOCATE-TO", "B path (for-all loops)", "in config.addressPoolServiceAllocationsFromCR every namespace selector of the pool is applied to every namespace of the cluster (no break, no skipped selector), a namespace is left out only when the selector does not match its labels (or it is already in the set), and every service selector is appended: the pinning index and the admission test are computed from these two sets", 3)
+	f := need(x, p, cfgPkg, "", "addressPoolServiceAllocationsFromCR")
+	if f == nil {
+		return
+	}
+	g := f.Graph()
+	pool, nss := isParamIdx(f, 0), isParamIdx(f, 1)
+	var selLoop, nsLoop *ast.RangeStmt
+	for _, rs := range f.RangeLoops(func(e ast.Expr) bool {
+		return f.MatchWith("P.Spec.AllocateTo.NamespaceSelectors", e, chk.H("P", pool)) != nil
+	}) {
+		selLoop = rs
+	}
+	for _, rs := range f.RangeLoops(nss) {
+		if selLoop != nil && chk.InBody(selLoop, rs) {
+			nsLoop = rs
+		}
+	}
+	if selLoop == nil || nsLoop == nil {
+		x.Fail("allocateTo:namespace-loops", f.Pos(), "no loop over the pool's namespace selectors containing a loop over the cluster's namespaces")
+		return
+	}
+	ns := rangeVal(f, nsLoop)
+	insert := f.ContainsPat("S.Namespaces.Insert(NS.Name)", chk.H("NS", ns))
+	lbl := func(e ast.Expr) bool {
+		return f.MatchWith("labels.Set(NS.Labels)", e, chk.H("NS", ns)) != nil || definedBy(g, "labels.Set(NS.Labels)", chk.H("NS", ns))(e)
+	}
+	except := chk.GOr(g.GPat(false, "L.Matches(V)", chk.H("V", lbl)), g.GPat(true, "S.Namespaces.Has(NS.Name)", chk.H("NS", ns)), g.GPat(true, "X.Has(NS.Name)", chk.H("NS", ns)))
+	x.Check("allocateTo:every-matching-namespace", nsLoop.Pos(), !loopSkipsWithout(g, nsLoop, insert, except) && !loopHasBreak(g, nsLoop), "", "a namespace that a namespace selector of the pool matches can be left out of the pool's namespaces (services of that namespace are then neither pinned to the pool nor admitted by it)")
+	x.Check("allocateTo:every-namespace-selector", selLoop.Pos(), !loopSkipsWithout(g, selLoop, func(n ast.Node) bool { return n == ast.Node(nsLoop.X) }, chk.NoGuard) && !loopHasBreak(g, selLoop), "", "a namespace selector of the pool can be skipped")
+	okSvc := false
+	for _, rs := range f.RangeLoops(func(e ast.Expr) bool {
+		return f.MatchWith("P.Spec.AllocateTo.ServiceSelectors", e, chk.H("P", pool)) != nil
+	}) {
+		app := f.IsAssignPat("S.ServiceSelectors", "append(S.ServiceSelectors, L)")
+		okSvc = !loopSkipsWithout(g, rs, app, chk.NoGuard) && !loopHasBreak(g, rs)
+	}
+	x.Check("allocateTo:every-service-selector", f.Pos(), okSvc, "", "a service selector of the pool can be left out")
 }
